@@ -76,10 +76,27 @@ func checkClean(rec *stats.Recorder, ex *executor, c cleanCase) string {
 			panic("C20 harness: the materialised tree differs from the model tree: " + d)
 		}
 	}
-	exp := cleanmodel.Expect(c.Tree, r, c.Mode == "dot")
+	// Report-only class: the current directory spelled "./" instead of ".". Everything about files and
+	// sub-directories is asserted as for "."; an error return is only labelled and noted (whether the
+	// quantifier's "current directory" covers this spelling is left to the reader of the evidence).
+	dotslash := c.Mode == "dotslash"
+	exp := cleanmodel.Expect(c.Tree, r, c.Mode == "dot" || dotslash)
 	labels := append([]string{"mode=" + c.Mode, "origin=" + class}, exp.Labels...)
 	if obs.Err1 != "" {
-		labels = append(labels, "first_clean_returned_error")
+		switch {
+		case len(exp.Unspecified) > 0:
+			labels = append(labels, "unspecified_clean_returned_error")
+			if strings.HasSuffix(obs.Err1, r.Manifest+": directory not empty") {
+				noteOnce(rec, hx.Gen()+" report-only (outside the alphabet): a non-empty DIRECTORY named like the manifest makes CleanTargetDir return \"remove <dir>/"+r.Manifest+": directory not empty\" before anything in <dir> is cleaned")
+			} else {
+				noteOnce(rec, hx.Gen()+" report-only (outside the alphabet, directory with a generator-owned name): CleanTargetDir returned "+errShape(obs.Err1))
+			}
+		case dotslash:
+			labels = append(labels, "reportonly_dotslash_clean_returned_error")
+			noteOnce(rec, fmt.Sprintf("%s report-only: CleanTargetDir(\"./\") with cwd = target returned %q (seen when the directory is empty or holds nothing but generator-owned files and file-free directories, i.e. ends up empty)", hx.Gen(), obs.Err1))
+		default:
+			labels = append(labels, "first_clean_returned_error")
+		}
 	}
 	rec.Case(labels...)
 	if exp.NonTrivial {
@@ -102,10 +119,10 @@ func checkClean(rec *stats.Recorder, ex *executor, c cleanCase) string {
 		}
 		return ""
 	}
-	if obs.Err1 != "" {
+	if obs.Err1 != "" && !dotslash {
 		return fail("G6: first clean returned an error: %s", obs.Err1)
 	}
-	if obs.Err2 != "" {
+	if obs.Err2 != "" && !dotslash {
 		return fail("G5: second clean returned an error: %s", obs.Err2)
 	}
 	if d := cleanmodel.Diff(obs.After1, obs.After2); d != "" {
@@ -114,13 +131,23 @@ func checkClean(rec *stats.Recorder, ex *executor, c cleanCase) string {
 	return ""
 }
 
+// errShape strips the scratch path from an error message so that equal errors give equal notes.
+func errShape(e string) string {
+	if i := strings.Index(e, "/"+targetName+"/"); i >= 0 {
+		if j := strings.LastIndex(e[:i], " "); j >= 0 {
+			return e[:j+1] + "<target>" + e[i+len(targetName)+1:]
+		}
+	}
+	return e
+}
+
 // ---------------------------------------------------------------------------------------------
 // (a) exhaustive enumeration
 
 type enumSpace struct {
 	name              string
 	depth, maxEntries int
-	// every tree runs in mode abs; every dotStride-th tree additionally in modes dot and rel
+	// every tree runs in mode abs; every dotStride-th tree additionally in modes dot, rel and dotslash
 	dotStride int
 }
 
@@ -167,7 +194,7 @@ func TestC20Enum(t *testing.T) {
 			tree := cleanmodel.Materialise(sh, rules(), i)
 			modes := []string{"abs"}
 			if (i/sn)%sp.dotStride == 0 {
-				modes = append(modes, "dot", "rel")
+				modes = append(modes, "dot", "rel", "dotslash")
 				nd++
 			}
 			for _, mode := range modes {
@@ -180,7 +207,7 @@ func TestC20Enum(t *testing.T) {
 			n++
 		}
 		rec.Exhaustive(sp.name+" (absolute target path)", n)
-		rec.Exhaustive(sp.name+" (target '.' and relative target path)", nd)
+		rec.Exhaustive(sp.name+" (target '.', relative target path, and './' as report-only class)", nd)
 	}
 }
 
@@ -236,15 +263,22 @@ func genContent(t *rapid.T) []byte {
 	return rapid.SampledFrom(contents).Draw(t, "content")
 }
 
+// entry kinds of genChildren, weighted; index 0 (what shrinking converges to) is the plainest one
+var kindWeights = []int{5, 5, 3, 3, 0, 0, 2, 7, 8, 9, 9, 10, 10, 11, 11, 9, 10, 11}
+
 func genChildren(t *rapid.T, r cleanmodel.Rules, depthLeft int, unspecified bool) []*cleanmodel.Node {
-	n := rapid.IntRange(0, 3).Draw(t, "entries")
+	// rapid favours small draws; the sum of two keeps "fewer entries" as the shrink direction while making full levels common
+	n := rapid.IntRange(0, 3).Draw(t, "entries_a") + rapid.IntRange(0, 2).Draw(t, "entries_b")
+	if n > 3 {
+		n = 3
+	}
 	var out []*cleanmodel.Node
 	used := map[string]bool{}
 	for i := 0; i < n; i++ {
 		var c *cleanmodel.Node
 		fileMode := func() uint32 { return rapid.SampledFrom([]uint32{0o444, 0o644, 0o600}).Draw(t, "file_mode") }
 		dirMode := func() uint32 { return rapid.SampledFrom([]uint32{0o755, 0o755, 0o700}).Draw(t, "dir_mode") }
-		kind := rapid.IntRange(0, 11).Draw(t, "kind")
+		kind := rapid.SampledFrom(kindWeights).Draw(t, "kind")
 		switch {
 		case kind <= 1: // generated file
 			c = &cleanmodel.Node{Name: rapid.SampledFrom(generatedNames).Draw(t, "gen_name"), Content: genContent(t), Mode: fileMode()}
@@ -281,7 +315,7 @@ func genCase(t *rapid.T) cleanCase {
 	r := rules()
 	unspecified := rapid.IntRange(0, 9).Draw(t, "unspecified_class") == 0
 	tree := &cleanmodel.Node{Dir: true, Mode: rapid.SampledFrom([]uint32{0o755, 0o755, 0o700}).Draw(t, "target_mode"), Children: genChildren(t, r, 3, unspecified)}
-	mode := rapid.SampledFrom([]string{"abs", "abs", "abs", "dot", "rel"}).Draw(t, "mode")
+	mode := rapid.SampledFrom([]string{"abs", "abs", "abs", "abs", "dot", "dot", "rel", "dotslash"}).Draw(t, "mode")
 	return cleanCase{Tree: tree, Mode: mode, Origin: "rapid"}
 }
 
@@ -352,7 +386,7 @@ func TestC20Regress(t *testing.T) {
 		return // fixed table: one shard is enough
 	}
 	for i, tree := range regressionTrees() {
-		for _, mode := range []string{"abs", "dot", "rel"} {
+		for _, mode := range []string{"abs", "dot", "rel", "dotslash"} {
 			c := cleanCase{Tree: tree, Mode: mode, Origin: fmt.Sprintf("regress#%d", i)}
 			if msg := checkClean(rec, ex, c); msg != "" {
 				rec.Violation(fmt.Sprintf("clean-regress%d-%s", i, mode), msg, c)
